@@ -69,7 +69,7 @@ class WBSlave:
     mode 'mem': byte memory (dict word -> value); mode 'tag': returns tag values chosen per access.
     mute_from/mute_for: stop answering (fault injection)."""
     def __init__(self, bus, rng, name="s", lat=(0, 3), err_p=0.0, mem=None, tagger=None,
-                 mute_from=None, mute_for=None, readonly=False):
+                 mute_from=None, mute_for=None, readonly=False, err_with_ack=False):
         self.bus, self.rng, self.name = bus, rng, name
         self.lat, self.err_p = lat, err_p
         self.mem = mem if mem is not None else {}
@@ -83,6 +83,7 @@ class WBSlave:
         self.nbytes = len(bus.dat_w) // 8
         self.aborted = 0
         self.readonly = readonly
+        self.err_with_ack = err_with_ack      # LiteX convention: err is a flag raised together with ack
         self.cyc_cycles = []
 
     def signals(self):
@@ -140,7 +141,7 @@ class WBSlave:
             dat_r = self.mem.get(adr, 0)
         self.cur = {"dat_r": dat_r, "err": err}
         self.acking = True
-        return {b.ack: 0 if err else 1, b.err: err, b.dat_r: dat_r}
+        return {b.ack: 0 if (err and not self.err_with_ack) else 1, b.err: err, b.dat_r: dat_r}
 
 
 class WBProtocolMonitor:
